@@ -109,7 +109,8 @@ mod verif_cache {
         unsafe { ENV_PUBLISHED = std::ptr::null_mut(); }
         drop(c);
         drop(inner);
-        if env_active && p != env {
+        // the environment's decoding was either published (then the drops above released it) or never used
+        if p != env {
             unsafe { Arc::decrement_strong_count(env as *const String) };
         }
     }
